@@ -21,6 +21,8 @@ type Gen struct {
 	// PlainQER: QERs are non-GBR with pairwise distinct MBRs, at most two per
 	// session (C03's envelope; C09 explores the rest of the QoS space)
 	PlainQER bool
+	// UP4: the P4 datapath supports application filters only as remote prefix / proto / port range
+	UP4 bool
 }
 
 func NewGen(r *Run) *Gen {
@@ -30,7 +32,7 @@ func NewGen(r *Run) *Gen {
 
 // KnownTriggers are generator switches for inputs that reach a listed known
 // finding. In 3 of 4 runs each is avoided.
-var KnownTriggers = []string{"update-pdr-filter", "update-session-qer", "update-pdr-qer-list", "create-qer-in-modification"}
+var KnownTriggers = []string{"up4-multi-pdr-session", "up4-far-update-leaves-tunnel-peer", "update-pdr-filter", "update-session-qer", "update-pdr-qer-list", "create-qer-in-modification"}
 
 func (g *Gen) DrawAvoid() {
 	for _, k := range KnownTriggers {
@@ -87,7 +89,7 @@ func (g *Gen) Flow(wide bool) *FlowSpec {
 		f.RemoteIP, f.RemoteLen = (uint32(0x0C000000) + uint32(g.flowSeq)<<16) & 0xFFFF0000, 16
 		remote = fmt.Sprintf("%s/16", u32IP(f.RemoteIP))
 	case 3:
-		l := 1 + g.c(32, "plen")
+		l := 8 + g.c(25, "plen") // non-zero network address (envelope)
 		base := uint32(0x0B000000) + uint32(g.flowSeq)<<16 + uint32(g.c(250, "net"))<<8
 		m := ^uint32(0) << (32 - uint(l))
 		f.RemoteIP, f.RemoteLen = base&m, l
@@ -261,6 +263,16 @@ func (g *Gen) Modification(s *CPSession) *ModSpec {
 			m.Tag = "uF:drop"
 		}
 		m.UpdateFAR = append(m.UpdateFAR, &f)
+		if g.UP4 {
+			old := s.FAR(2)
+			if old != nil && old.HasOHC && (!f.HasOHC || !f.PeerIP.Equal(old.PeerIP)) {
+				// the old GTP peer is no longer used by this FAR
+				if g.Avoid["up4-far-update-leaves-tunnel-peer"] {
+					return &ModSpec{}
+				}
+				m.Trigger = "up4-far-update-leaves-tunnel-peer"
+			}
+		}
 	case 1: // add a filtered PDR pair
 		maxID := uint16(0)
 		for _, p := range s.PDRs {
